@@ -5,12 +5,18 @@ SPEC = {
     "correspondences": [
         # every modelled (operation, instance): the recorded storage-step trace of the real operation must equal the
         # model's step list; the judge evaluates the theorems' structural hypotheses on the REAL trace
-        {"dialect": "c07trace", "quick_n": 17, "thorough_n": 49, "judge": "judge-c07-trace"},
+        # (61 = start-up + 20 operations x 3 instances: ALL of them in both tiers - RENAME INBOX, the connector updates that
+        # name messages the server already has, COPY/MOVE onto a mailbox that holds the message, RENAME/DELETE of non-empty
+        # hierarchies are instances 1/2 and the operations cknown/dupcopy/rename2/delete2)
+        {"dialect": "c07trace", "quick_n": 61, "thorough_n": 61, "judge": "judge-c07-trace"},
     ],
     "oracles": [
         # fault enumeration on the real server in child processes: every step boundary x {kill, error} (+ death /
-        # failure inside store.Set), restart on the same directories, compare over IMAP, audit the store directory
-        {"name": "c07crash", "quick_args": ["-insts", "0"], "thorough_args": ["-insts", "0,1,2,3,4"], "timeout": 3000},
+        # failure inside store.Set), restart on the same directories, compare the WHOLE account over IMAP (every mailbox, every
+        # listed message with its exact bytes, with a connector that cannot serve any literal again), audit the store
+        # directory; the traces of the runs with an injected error go to the Lean judge `judge-c07-fail` (error handlers).
+        # Instances 0..2 are the scripted variants of every operation (quick and thorough); 3,4 only vary the literal size.
+        {"name": "c07crash", "quick_args": ["-insts", "0,1,2"], "thorough_args": ["-insts", "0,1,2,3,4"], "timeout": 3000},
     ],
     "rule": "evaluations = trace comparisons + fault runs (one child process death / injected error each, plus the restart); "
             "non-trivial = the run's restart view was the after-state or the before-state of an operation that changes the account "
@@ -25,7 +31,7 @@ SPEC = {
         "statement table (which db.Transaction methods change the acknowledged state): every method not in db.ReadOnly and not a \\Recent-only update counts as visible (conservative)",
         "interposers harness/interpose.go + generated interpose_gen.go (tools/c07gen) around the public db.Client/db.Transaction/store.Store interfaces; the wrappers embed the interfaces and the oracle and the trace dialect "
         "compare the method sets at run time (a changed db interface is reported as `db interface changed: run tools/c07gen`, it does not break the harness build); verifhooks.NewSQLiteDB; Server.VerifBarrier/VerifStates",
-        "facts translator harness/facts_crash.go (go/ast)",
+        "facts translator harness/facts_crash.go (go/ast): interface method sets, storage calls of the anchored functions in source order, the collection the cache clean-up loop of applyMessagesCreated ranges over and the if-conditions under which it grows",
     ],
     "assumptions": [
         "only PROCESS death and failing storage calls are covered: power loss / missing fsync (cache files and the WAL are not fsynced by gluon), torn sector writes and SQLite's own crash recovery are outside the model and outside the oracle",
@@ -36,10 +42,17 @@ SPEC = {
         "theorem fail_atomic holds with the named hypothesis HandlerInvisible (the error handler commits nothing visible); it is false for APPEND (fail_atomic_append_counterexample, replayed by the oracle: known finding); "
         "listed_is_fetchable holds with the store discipline (needed: listed_is_fetchable_needs_discipline); the re-download of a lost cache file writes the file of an existing row, which is fine because a truncated file "
         "is reported by store.Get since /repo ad3c4e0 (DESIGN #23 repaired; the oracle's killnonce/killhalf/errhalf runs on the re-download would show a regression as signature=partial-cache-file-of-existing-row-served-as-empty-message)",
-        "error handlers (`handlerOf`) are modelled for APPEND (recovery mailbox) and connector MessagesCreated (cache clean-up); they are exercised by the oracle's injected errors but not trace-compared",
-        "the connector is gluon's Dummy plus literals kept on disk (so that a restarted server can re-download); remote side effects of an interrupted operation are not rolled back and not part of the property",
+        "error handlers (`handlerOf`) are modelled for APPEND (recovery mailbox) and connector MessagesCreated (cache clean-up of the NEW messages of the update); they are not part of the trace correspondence, "
+        "but every recorded trace of a run with an injected error is given to the Lean judge `judge-c07-fail`, which evaluates the handler's store discipline (`handlerOk`, hypothesis of fail_listed_is_cached) on the REAL steps after the failed one "
+        "and reports whether they are the modelled ones (input_distribution oracle.c07crash failjudge.*)",
+        "the connector is gluon's Dummy; it answers GetMessageLiteral (re-download of a lost cache file, from literals kept on disk) ONLY in the `redownload` scenario - in every other scenario it has nothing to offer, live and after the restart, "
+        "so a listed message whose cache file gluon removed or never completed cannot be fetched and is reported; remote side effects of an interrupted operation are not rolled back and not part of the property",
+        "a storage step whose failure the operation tolerates (store.Get in MessageUpdated / in the re-download) is followed by the rest of the operation, not by a roll-back: the model's `failAt` does not describe these two cases "
+        "(the fault runs compare them with the before/after views as usual; the judge `judge-c07-fail` counts them as handler=not-as-modelled)",
     ],
     "explanation": "Lean: for every step list with at most one visible transaction and every step boundary, the restart view is the before- or the after-state (crash_atomic), the same for a failing step up to what the error handler commits (fail_decompose / fail_atomic_partial), "
-                   "every row stays fetchable under the store discipline (listed_is_fetchable) and start-up removes all left-overs from any state (leftovers_removed); both structural facts are decided for every modelled operation instance and re-evaluated by the judge on the trace recorded from the real operation. "
+                   "every row stays fetchable under the store discipline (listed_is_fetchable) - and, for operations that re-download nothing, keeps its COMPLETE cache file, also through the operation's error handler (listed_is_cached / fail_listed_is_cached with the named hypothesis handlerOk; "
+                   "false without it: fail_listed_is_cached_needs_handlerOk, a clean-up that deletes the file of a message the server already had) - and start-up removes all left-overs from any state (leftovers_removed); the structural facts are decided for every modelled operation instance "
+                   "(operations on pre-existing objects included: connector updates naming known messages, duplicates in one batch, COPY/MOVE onto a mailbox holding the message, RENAME INBOX, RENAME/DELETE of non-empty hierarchies) and re-evaluated by the judges on the traces recorded from the real operation (judge-c07-trace; judge-c07-fail on the faulted runs). "
                    "Fault enumeration (not a proof): child processes are killed / get an injected error at every recorded step of every operation, the server is restarted on the same directories and compared over IMAP, the store directory is audited against the message rows.",
 }
